@@ -318,16 +318,20 @@ func init() {
 		w.P("/-- every other top-level statement of `UTransport.doDial` equals `Transport.doDial`'s, in order -/")
 		w.P("def doDialRestEqual : Bool := %s", leanBool(eqStrs(restU, restT)))
 
-		// dial: Transport.dial's statements occur in UTransport.dial in order; every extra statement is guarded by
-		// `t.QUICSpec != nil` (no else) or declares initialPN; the final doDial call differs only in that argument.
-		isGuard := func(st ast.Stmt) bool {
-			is, ok := st.(*ast.IfStmt)
-			return ok && is.Init == nil && is.Else == nil && render(fset, is.Cond) == "t.QUICSpec != nil"
+		// dial: Transport.dial's statements occur in UTransport.dial in order; every extra statement is INERT without a
+		// spec (x_dial_nilspec.go: `if <spec> != nil {…}` without else, `var x T`, a call of a same-package helper method
+		// of the receiver that only returns zero values when the spec is nil, the propagation of such a helper's nil
+		// error); the final doDial call differs only in the initial-packet-number argument, a local that is zero without
+		// a spec. Local names and "inlined versus extracted" do not matter.
+		env := newNilSpecEnv(fset, p, "UTransport", uDial)
+		if env.recv == "" {
+			return fmt.Errorf("UTransport.dial: unnamed receiver")
 		}
 		guardedOnly, inOrder := true, true
 		ti := 0
 		tList := tDial.Body.List
-		normRet := func(st ast.Stmt, pnArg string) string {
+		pnVar := ""
+		normRet := func(st ast.Stmt, pnIsZero func(ast.Expr) bool) string {
 			// replace the initial-packet-number argument of the final doDial call by a placeholder
 			rs, ok := st.(*ast.ReturnStmt)
 			if !ok || len(rs.Results) != 1 {
@@ -338,23 +342,33 @@ func init() {
 				return render(fset, st)
 			}
 			a := argsOf(call)
-			if a[4] != pnArg {
+			if !pnIsZero(call.Args[4]) {
 				return render(fset, st)
 			}
 			a[4] = "<pn>"
 			return "return t.doDial(" + strings.Join(a, ", ") + ")"
 		}
-		pnAssignedOnlyUnderGuard := true
+		zeroLocal := func(x ast.Expr) bool {
+			id, ok := x.(*ast.Ident)
+			if ok && env.zero[id.Name] {
+				pnVar = id.Name
+				return true
+			}
+			return false
+		}
+		inertStmts := map[ast.Stmt]bool{}
 		for _, st := range uDial.Body.List {
 			r := render(fset, st)
 			if ti < len(tList) {
 				want := render(fset, tList[ti])
-				if r == want || (ti == len(tList)-1 && normRet(st, "initialPN") == normRet(tList[ti], "0")) {
+				if r == want || (ti == len(tList)-1 && normRet(st, zeroLocal) == normRet(tList[ti], isZeroLit)) {
 					ti++
+					env.lastDef = map[string]bool{}
 					continue
 				}
 			}
-			if isGuard(st) || r == "var initialPN protocol.PacketNumber" {
+			if env.inert(st) {
+				inertStmts[st] = true
 				continue
 			}
 			guardedOnly = false
@@ -368,27 +382,14 @@ func init() {
 			}
 		}
 		inOrder = ti == len(tList)
-		// initialPN is only assigned inside a guard
-		for _, st := range uDial.Body.List {
-			if isGuard(st) {
-				continue
-			}
-			ast.Inspect(st, func(n ast.Node) bool {
-				if as, ok := n.(*ast.AssignStmt); ok {
-					for _, l := range as.Lhs {
-						if id, ok := l.(*ast.Ident); ok && id.Name == "initialPN" {
-							pnAssignedOnlyUnderGuard = false
-						}
-					}
-				}
-				return true
-			})
-		}
+		// the packet-number local is written only by inert statements (so it is 0 without a spec)
+		pnAssignedOnlyUnderGuard := pnVar == "" || !assignedOutside(uDial.Body.List, inertStmts, pnVar)
 		w.P("/-- u_transport.go `UTransport.dial`: all statements of `Transport.dial` occur, in order (the final `doDial` call modulo")
-		w.P("    its initial-packet-number argument: `initialPN` for `0`) -/")
+		w.P("    its initial-packet-number argument: a local that is zero without a spec, for `0`) -/")
 		w.P("def dialHasPlainStmtsInOrder : Bool := %s", leanBool(inOrder))
-		w.P("/-- … every additional statement is `if t.QUICSpec != nil { … }` (no else) or declares `initialPN`, which is assigned")
-		w.P("    only inside such a guard (so it is 0 without a spec) -/")
+		w.P("/-- … every additional statement is inert when `t.QUICSpec == nil`: `if <spec> != nil { … }` (no else), a `var`")
+		w.P("    declaration, a call of a same-package helper method that only returns zero values without a spec (and the")
+		w.P("    propagation of its nil error); the packet-number local is written only by such statements -/")
 		w.P("def dialExtrasGuardedBySpec : Bool := %s", leanBool(guardedOnly && pnAssignedOnlyUnderGuard))
 
 		// ---- (3) the built-in parrots as data ----------------------------------------------------------
